@@ -273,6 +273,27 @@ theorem call_from_root_returns_to_root (d : CtxDef) (body hs : List Item) (hw : 
   let g := call_keeps_stack_aligned St.init (.call d body hs) (by unfold Item.wf; rw [hw, hwh]; rfl) inv_init rfl
   ⟨by have h := g.1; generalize (exec St.init (.call d body hs)).1.st.parents = l at h; cases h; rfl, g.2.1⟩
 
+/-- **a foreign panic is popped for before it is re-raised** (the threadClose of coroutine.close, a Go
+runtime error, "Too much mem released": everything that is not a ContextTerminationError): when the
+body or a handler of a call unwinds with such a panic, the call re-raises it (`crashed`) only AFTER
+PopContext — the state it leaves is the parent charged with what the child had used, on top of the
+frames that were below; no result is handed back and no event is added. -/
+theorem foreign_panic_pops_before_repanic (a : Acc) (d : CtxDef) (body hs : List Item) (hwb : wfBody body = true)
+    (hwh : wfBody hs = true) (hi : Inv a.st) (hl : a.st.cur.live = true)
+    (hc : (runCall a d body hs).2 = .crashed) :
+    ∃ p' ps', (runCall a d body hs).1.st.parents = p' :: ps' ∧ Lower p' a.st.cur ∧ LowerL ps' a.st.parents ∧
+      runItem a (.call d body hs) =
+        ({ (runCall a d body hs).1 with st := ⟨charged p' (runCall a d body hs).1.st.cur, ps'⟩ }, .crashed) := by
+  have gb := good_call a d body hs hwb hwh hi hl
+  cases hr : runCall a d body hs with
+  | mk a1 ex =>
+    rw [hr] at gb hc
+    simp only at hc; subst hc
+    obtain ⟨p', ps', hpe, hlp, hlps, _, _, _, _, _, hrun⟩ := call_unfold a d body hs a1 _ hr gb hl
+    have hab : afterBody Exit.crashed a1.st = a1.st := (afterBody_same Exit.crashed a1.st).2.2.2.2 (fun c => nomatch c)
+    rw [hab] at hrun
+    exact ⟨p', ps', hpe, hlp, hlps, by rw [hrun]; rfl⟩
+
 /-! ## pending to-be-closed handlers run in the context being left, before its status is set -/
 
 /-- **order**: `CallContext` runs the pending close handlers (`cleanupCloseStack(c, h, f())`) in the
